@@ -75,7 +75,7 @@ def _gen_version(rng):
     if rng.random() < 0.3:
         s += rng.choice([".dev", "-dev", "dev", "_dev"]) + rng.choice(["", "0", "3"])
     if rng.random() < 0.2:
-        s += "+" + rng.choice(["abc", "1", "abc.1", "1.abc", "ubuntu-1"])
+        s += "+" + rng.choice(["abc", "1", "abc.1", "1.abc", "ubuntu-1", "ABC", "Ubuntu.1", "b", "B", "abc_1", "1.ABC"])  # PEP 440: local labels compare case-insensitively
     return s
 
 
